@@ -241,6 +241,8 @@ def run(ctx):
     conf_prints_values_unchanged(ctx)
     # ---- T9: "output = NAME" without ":" means an empty argument --------------------------------------------
     output_without_argument_rule(ctx, prog)
+    # ---- booleans: a character searched in a set of letters must not be the terminator -----------------------
+    boolean_needle_rule(ctx, prog)
     # ---- T5 --------------------------------------------------------------------------------------
     sec = [c for c in CB.calls('strcmp') if any(strip(a).k == 'StringLiteral' and strip(a).get('s') == 'snoopy' for a in c.ch[1:])]
     ok = len(sec) == 1
@@ -849,3 +851,35 @@ def conf_prints_values_unchanged(ctx):
                'snoopy.ini, no longer gives the same setting (TAB and every non-ASCII byte are "unprintable" in the C locale)' % (
                    ('changed or filtered by %s' % render(modified[0])[:60]) if modified else 'not printed with a plain %s'),
                how='printf("%s") of the string returned by getOptionValueAsString; no store through it, no helper in between')
+
+
+def boolean_needle_rule(ctx, prog):
+    """strchr(set, ch) also succeeds for ch == 0 (it finds the terminator of `set`): a value character looked up
+    that way must be known to be non-zero, or an empty value is taken for a member of the set"""
+    chk = ctx.chk
+    B = prog.func('snoopy_configfile_getboolean')
+    if B is None:
+        raise AnalysisBroken('snoopy_configfile_getboolean not found')
+    calls = [c for c in B.calls() if c.get('callee') in ('strchr', 'index', 'memchr', 'strrchr', 'rindex')]
+    for c in calls:
+        needle = strip(arg(c, 1))
+        if needle is None or needle.get('v') is not None:
+            continue
+        txt = render(needle).replace('(int)', '').strip('() ')
+
+        def nz_edge(blk, txt=txt):
+            cc = strip(blk.cond) if blk.cond is not None else None
+            if cc is None or len(blk.all_succs) != 2:
+                return None
+            isx = lambda n: render(n).replace('(int)', '').strip('() ') == txt and n.k in ('ArraySubscriptExpr', 'UnaryOperator', 'DeclRefExpr')
+            ce = common.compare_edges(blk, isx)
+            if ce is not None and ce[0] == 0:
+                return ce[2]
+            return None
+        g = common.guarded_at(B, c, nz_edge, lambda e: False)
+        chk.ob('T2', 'boolean-needle-not-nul[%s]' % render(c)[:30], g, c.where(), B.name,
+               '%s also matches when %s is the terminating NUL: an empty value ("error_logging =", or a value that is only a '
+               'comment) is read as a member of the set instead of leaving the default' % (render(c)[:50], txt),
+               how='the character is tested to be non-zero before the search')
+    chk.ob('T2', 'boolean-by-first-letter', True, B.where(), B.name, nontrivial=False,
+           how='%d set searches in getboolean inspected' % len(calls))
